@@ -18,6 +18,9 @@ mod h_misc;
 pub static WITNESSES: std::sync::atomic::AtomicU64 = std::sync::atomic::AtomicU64::new(0);
 pub fn witness(yes: bool) { if yes { WITNESSES.fetch_add(1, std::sync::atomic::Ordering::Relaxed); } }
 
+/// thorough tier: VERIF_DEEP=1 widens the enumerated spaces (each harness states the bound it actually used)
+pub fn deep() -> bool { std::env::var("VERIF_DEEP").map_or(false, |v| v == "1") }
+
 pub struct Report { pub harness: &'static str, pub bound: String, pub cases: u64, pub cex: Option<String> }
 
 fn main() {
